@@ -131,6 +131,21 @@ example : canon [Var.plain 1, Var.plain 0, Var.plain 2]
 example : canon [Var.plain 1, Var.plain 0, Var.plain 2] (.prob none [Var.plain 0, Var.plain 1] []) =
     .ok (.prob none [Var.plain 1, Var.plain 0] []) := by rfl
 
+/-- multi-world joints were never outside these theorems (no scoping hypothesis).  After `fix:` d517ad1 a sum over a joint
+with several children on one base variable is left alone by `Sum.simplify`, hence is its own canonical form:
+`Sum[Z](P(Y @ +X, Y @ -X, Z))` canonicalises to `Sum[Z](P(Y @ -X, Y @ +X, Z))` (children sorted), and again to itself -/
+example : canon (upgradeOrdering [Var.plain 0, Var.plain 1, Var.plain 2])
+      (.sum (.prob none [{ name := 1, ivs := [⟨0, true⟩] }, { name := 1, ivs := [⟨0, false⟩] }, Var.plain 2] []) [Var.plain 2]) =
+    .ok (.sum (.prob none [{ name := 1, ivs := [⟨0, false⟩] }, { name := 1, ivs := [⟨0, true⟩] }, Var.plain 2] []) [Var.plain 2]) ∧
+    canon (upgradeOrdering [Var.plain 0, Var.plain 1, Var.plain 2])
+      (.sum (.prob none [{ name := 1, ivs := [⟨0, false⟩] }, { name := 1, ivs := [⟨0, true⟩] }, Var.plain 2] []) [Var.plain 2]) =
+    .ok (.sum (.prob none [{ name := 1, ivs := [⟨0, false⟩] }, { name := 1, ivs := [⟨0, true⟩] }, Var.plain 2] []) [Var.plain 2]) :=
+  ⟨by rfl, by rfl⟩
+/-- such a sum is a canonical form in the sense of `canon_fixed_iff` -/
+example : IsCanon (levelOf (upgradeOrdering [Var.plain 0, Var.plain 1, Var.plain 2]))
+    (.sum (.prob none [{ name := 1, ivs := [⟨0, false⟩] }, { name := 1, ivs := [⟨0, true⟩] }, Var.plain 2] []) [Var.plain 2]) :=
+  (canon_fixed_iff (nameMonotone_levelOf _)).mp (by rfl)
+
 /-! ## 4. the normal-form theorem for the public entry point -/
 
 /-- `Present` is a symmetric relation (it is reflexive and transitive on well-formed expressions as well; only symmetry is
